@@ -14,6 +14,7 @@ from dask._expr import FinalizeCompute, SingletonExpr
 from dask._task_spec import List, Task, TaskRef
 from dask.array.chunk import getitem
 from dask.array.core import T_IntOrNaN, common_blockdim, unknown_chunk_message
+from dask.array.utils import meta_from_array
 from dask.blockwise import broadcast_dimensions
 from dask.layers import ArrayBlockwiseDep
 from dask.utils import cached_cumsum
@@ -190,7 +191,10 @@ class Stack(ArrayExpr):
 
     @functools.cached_property
     def _meta(self):
-        return self.operand("meta")
+        # ``np.stack`` of the inputs' metas has extent ``len(seq)`` along
+        # ``axis``; a meta has extent 0 everywhere (as the legacy Array ensures)
+        meta = self.operand("meta")
+        return meta_from_array(meta, ndim=meta.ndim)
 
     @functools.cached_property
     def chunks(self):
